@@ -25,7 +25,7 @@ Three toggles switch between the code as it is and the repaired code (`known_fin
           unguarded `upgrade_to_exclusive().await`);
 * `f12` — `input_session()` waits for the phase lock first and creates batch/epoch inside a guarded
           block (as is: batch and epoch bump first, then the unguarded wait for the lock);
-* `f20` — the guarded publication blocks keep their own `ActiveComputationGuard` (as is: the detached
+* `f40` — the guarded publication blocks keep their own `ActiveComputationGuard` (as is: the detached
           continuation holds no phase guard, an input session can start while it still publishes).
 
 No imports outside core: the driver links as `lean_exe`.
@@ -40,7 +40,7 @@ abbrev Bid := Nat
 structure Cfg where
   f11 : Bool
   f12 : Bool
-  f20 : Bool
+  f40 : Bool
   deriving DecidableEq, Repr
 
 def Cfg.asIs : Cfg := ⟨false, false, false⟩
@@ -136,7 +136,9 @@ structure State where
   /-- an active batch was dropped: panic in `WriteBatch::drop`, epoch gap in the commit pipeline -/
   aborted : Bool
   epoch : Nat
-  readers : Nat
+  /-- the tasks that hold an `ActiveComputationGuard` (shared phase lock) -/
+  readers : List Tid
+  /-- the session that holds the exclusive phase lock -/
   writer : Option Tid
   /-- writes of a publication that has not been completed (submitted) yet -/
   partialW : Key → Nat
@@ -150,12 +152,13 @@ theorem upd_apply {β} (f : Nat → β) (a b x) : upd f a b x = if x = a then b 
 
 def init (cfg : Cfg) : State :=
   { cfg, tasks := fun _ => none, outcome := fun _ => none, comp := fun _ => none, bpl := fun _ => none,
-    bst := fun _ => .fresh, nextBid := 0, aborted := false, epoch := 0, readers := 0, writer := none,
+    bst := fun _ => .fresh, nextBid := 0, aborted := false, epoch := 0, readers := [], writer := none,
     partialW := fun _ => 0, version := fun _ => 0 }
 
 inductive Ev
-  /-- a new query task for `k`.  `clone = false`: a user query (`tracked()` takes the shared phase lock);
-      `clone = true`: a JoinSet child that was handed a clone of the guard.  `undo = some c`: the child
+  /-- a new query task for `k`.  `clone = false`: a user query (`tracked()` takes the shared phase lock, which
+      needs that no session holds the exclusive one); `clone = true`: a JoinSet child that was handed a clone of
+      a live guard.  `undo = some c`: the child
       of an unordered repair group of `c` (registers itself at `c`'s entry). -/
   | spawn (t : Tid) (k : Key) (clone : Bool) (undo : Option Key)
   | call (t : Tid) (c : Key)
@@ -197,6 +200,28 @@ def unregAt (comp : Key → Option Entry) (caller callee : Key) : Key → Option
   | some e => upd comp caller (some { e with regs := eraseReg e.regs callee })
   | none => comp
 
+/-- `register_callee`: `callee` is recorded (armed) at the caller's entry -/
+def regAt (comp : Key → Option Entry) (caller callee : Key) : Key → Option Entry :=
+  match comp caller with
+  | some e => upd comp caller (some { e with regs := (callee, true) :: e.regs })
+  | none => comp
+
+def regOpt (comp : Key → Option Entry) (u : Option Key) (callee : Key) : Key → Option Entry :=
+  match u with
+  | some c => regAt comp c callee
+  | none => comp
+
+/-- `UndoRegisterCallee::defuse`: the registration stays, the undo is disarmed -/
+def defuseAt (comp : Key → Option Entry) (caller callee : Key) : Key → Option Entry :=
+  match comp caller with
+  | some e => upd comp caller (some { e with regs := defuseReg e.regs callee })
+  | none => comp
+
+def defuseOpt (comp : Key → Option Entry) (u : Option Key) (callee : Key) : Key → Option Entry :=
+  match u with
+  | some c => defuseAt comp c callee
+  | none => comp
+
 /-- Drop of one frame: lock guards first (acquired last), then the undo (acquired first). -/
 def dropFrame (f : Frame) (comp : Key → Option Entry) (bpl : Key → Option Tid) :
     (Key → Option Entry) × (Key → Option Tid) :=
@@ -233,7 +258,7 @@ def setTask (s : State) (t : Tid) (T : Task) : State := { s with tasks := upd s.
 def endTask (s : State) (t : Tid) (T : Task) (o : Outcome) : State :=
   { s with tasks := upd s.tasks t none,
            outcome := if T.detached then s.outcome else upd s.outcome t (some o),
-           readers := if T.rd then s.readers - 1 else s.readers,
+           readers := if T.rd then s.readers.erase t else s.readers,
            writer := if T.wr then none else s.writer }
 
 /-- `cancel t`: the caller drops the future of task `t` at its current await point. -/
@@ -252,11 +277,11 @@ def cancelTask (s : State) (t : Tid) (T : Task) : State :=
       if T.pc.guarded then
         -- the guarded block owns lock guard and batch; everything around it is dropped now
         let r := dropFrames ({ top with lock := false, bp := false } :: rest) s.comp s.bpl
-        let keepRd := T.rd && s.cfg.f20
+        let keepRd := T.rd && s.cfg.f40
         { s with comp := r.1, bpl := r.2,
                  tasks := upd s.tasks t (some { T with frames := [{ top with undo := none }], detached := true, rd := keepRd }),
                  outcome := upd s.outcome t (some .cancelled),
-                 readers := if T.rd && !keepRd then s.readers - 1 else s.readers }
+                 readers := if T.rd && !keepRd then s.readers.erase t else s.readers }
       else
         let s1 := dropBatch s T.batch
         let r := dropFrames (top :: rest) s1.comp s1.bpl
@@ -279,13 +304,9 @@ def cancelGlue (T : Task) : List Glue :=
 
 def step (s : State) : Ev → Option State
   | .spawn t k clone undo =>
-    if s.tasks t = none ∧ s.outcome t = none ∧ (clone = true ∨ s.writer = none) then
-      let comp := match undo with
-        | some c => (match s.comp c with
-            | some e => upd s.comp c (some { e with regs := (k, true) :: e.regs })
-            | none => s.comp)
-        | none => s.comp
-      some { s with comp, readers := s.readers + 1,
+    if s.tasks t = none ∧ s.outcome t = none ∧ ((clone = true ∧ s.readers ≠ []) ∨ (clone = false ∧ s.writer = none)) then
+      let comp := regOpt s.comp undo k
+      some { s with comp, readers := t :: s.readers,
                     tasks := upd s.tasks t (some { frames := [{ key := k, undo, lock := false, bp := false }], pc := .start,
                                                    batch := none, rd := true, wr := false, detached := false }) }
     else none
@@ -309,11 +330,7 @@ def step (s : State) : Ev → Option State
       (match T.frames with
        | top :: rest =>
          if T.pc = .start ∧ top.lock = false ∧ top.bp = false then
-           let comp := match top.undo with
-             | some c => (match s.comp c with
-                 | some e => upd s.comp c (some { e with regs := defuseReg e.regs top.key })
-                 | none => s.comp)
-             | none => s.comp
+           let comp := defuseOpt s.comp top.undo top.key
            (match rest with
             | [] => some (endTask { s with comp } t T .returned)
             | _ :: _ => some { s with comp, tasks := upd s.tasks t (some { T with frames := rest, pc := .locked }) })
@@ -456,7 +473,7 @@ def step (s : State) : Ev → Option State
   | .sAcquire t =>
     match s.tasks t with
     | some T =>
-      if s.readers = 0 ∧ s.writer = none ∧ ((T.pc = .sInit ∧ s.cfg.f12 = true) ∨ T.pc = .sBumped) then
+      if s.readers = [] ∧ s.writer = none ∧ ((T.pc = .sInit ∧ s.cfg.f12 = true) ∨ T.pc = .sBumped) then
         some { setTask s t { T with pc := if T.pc = .sInit then .sG0 else .sOpen, wr := true } with writer := some t }
       else none
     | none => none
